@@ -1005,7 +1005,10 @@ def check_cellwise(case, res, fields, fail):
                 ok = np.all(np.isnan(got) | np.isnan(exp) | np.isclose(got, exp, rtol=1e-5 if single else 1e-9, atol=1e-5 if single else 1e-7)
                             | np.isclose(np.abs(got - exp), 2 * np.pi, atol=1e-5) | np.isclose(np.abs(got - exp), np.pi, atol=1e-5))
             elif loose:
-                ok = np.allclose(got, exp, rtol=1e-5 if single else 1e-12, atol=1e-300, equal_nan=True)
+                # division by an exact zero gives inf/nan whose sign follows the sign of the zero (IEEE, outside the property)
+                fin = np.isfinite(got) & np.isfinite(exp)
+                ok = bool(np.all(np.isfinite(got) == np.isfinite(exp))) and \
+                    np.allclose(got[fin], exp[fin], rtol=1e-5 if single else 1e-12, atol=1e-300)
             else:
                 ok = np.array_equal(got, exp)
             if not ok:
